@@ -151,7 +151,7 @@ def build(doc, extras=None):
         files[name] = data; rels.append(('rId%d' % (40 + k), reltype, name[len('word/'):] if name.startswith('word/') else '../' + name))
         if not name.endswith('.png'): ct.append('<Override PartName="/%s" ContentType="%s"/>' % (name, ctype))
     files['word/styles.xml'] = STYLES % ('<w:rPr><w:b/></w:rPr>' if extras.get('normal_bold') else '')
-    files['word/settings.xml'] = '<?xml version="1.0" encoding="UTF-8" standalone="yes"?><w:settings %s><w:zoom w:percent="100"/></w:settings>' % NS
+    files['word/settings.xml'] = '<?xml version="1.0" encoding="UTF-8" standalone="yes"?><w:settings %s><w:zoom w:percent="100"/>%s</w:settings>' % (NS, '<w:evenAndOddHeaders/>' if extras.get('even_odd') else '')
     files['[Content_Types].xml'] = ''.join(ct) + '</Types>'
     files['_rels/.rels'] = ('<?xml version="1.0" encoding="UTF-8" standalone="yes"?><Relationships xmlns="%s"><Relationship Id="rId1" Type="%sofficeDocument" Target="word/document.xml"/></Relationships>' % (PR, RT))
     files['word/_rels/document.xml.rels'] = ('<?xml version="1.0" encoding="UTF-8" standalone="yes"?><Relationships xmlns="%s">%s</Relationships>'
